@@ -10,7 +10,7 @@ LEVEL_TEXT = ("For every tree, start node, filter, stop, maxlevel, mincount and 
               "exactly the nodes whose attribute exists and equals the value. Tied to /repo through both anytree.search and "
               "anytree.cachedsearch with every keyword, bounds at 0, at the match count and beyond, nodes lacking the attribute.")
 LEVEL_NOTE = ("Trusted: Lean kernel, standard axioms; the mirror lean/Anytree/Model/Search.lean; attribute values modelled as "
-              "integers with decidable equality (user __eq__ on values is the user's); fastcache absent (with it installed the "
+              "JSON scalars (integers and None) compared by value (user __eq__ on values is the user's); fastcache absent (with it installed the "
               "cached functions memoise on argument identity - out of scope); the CountError message is canonicalised to "
               "(which bound, bound, count).")
 THEOREMS = [
@@ -46,10 +46,10 @@ def _queries(rng, t, start, attrs, n):
         elif r < 0.6:
             qs.append({"fn": "find", "filter_out": fo, "stop": st, "maxlevel": m, "defaults": rng.random() < 0.3})
         elif r < 0.8:
-            qs.append({"fn": "findall_by_attr", "name": rng.choice(["x", "y", "label", "zz"]), "value": rng.randrange(0, 3),
+            qs.append({"fn": "findall_by_attr", "name": rng.choice(["x", "y", "label", "zz"]), "value": rng.choice([0, 1, 2, None, None]),
                        "maxlevel": m, "mincount": rng.choice([None, 0, 1, 2]), "maxcount": rng.choice([None, 0, 1, 2, 9])})
         else:
-            qs.append({"fn": "find_by_attr", "name": rng.choice(["x", "y", "label", "zz"]), "value": rng.randrange(0, 3),
+            qs.append({"fn": "find_by_attr", "name": rng.choice(["x", "y", "label", "zz"]), "value": rng.choice([0, 1, 2, None, None]),
                        "maxlevel": m})
     return qs
 
@@ -60,7 +60,7 @@ def _case(rng, t):
     for l in labs:
         for name in ("x", "y"):
             if rng.random() < 0.6:
-                attrs.append([l, name, rng.randrange(0, 3)])
+                attrs.append([l, name, rng.choice([0, 1, 2, None])])
     # every PNode has a `label` attribute: mirror it in the table
     attrs += [[l, "label", l] for l in labs]
     start = rng.choice(labs)
